@@ -94,7 +94,7 @@ def signal_der():
     e = ufun("e", 1, [x, s])
     D = _partials("e", 1, [x, s])
     d = ocp.der(e)
-    ds = ocp._signals[s].der
+    ds = ocp.der(s)
     want = D[0][0] * ufun("f", 1, [x, u]) + D[0][1] * ds
     nlp.prove_equal("stage:Stage.der:ensures:b-spline-signal-term", d, want)
     # signal AND explicit time in the same expression: the partial derivative in time must not be lost
@@ -102,13 +102,28 @@ def signal_der():
     D2 = _partials("e2", 1, [x, s, ocp.t])
     want2 = D2[0][0] * ufun("f", 1, [x, u]) + D2[0][1] * ds + D2[0][2]
     nlp.prove_equal("stage:Stage.der:ensures:b-spline-signal-and-time", ocp.der(e2), want2)
-    d2 = ocp._signals[ds].der
+    # the derivative of a signal is itself a signal of one order less: der(der(s)) is a symbol again, one derivative
+    # more than the order raises; mixed expressions keep the second-derivative term
+    name2 = "stage:Stage.der:ensures:second-derivative-of-a-signal-is-a-signal"
     try:
-        ocp._signals[d2].der
+        d2 = ocp.der(ds)
+    except Exception as ex:
+        c.fail(name2, "der(der(s)) raises %s: %s" % (type(ex).__name__, str(ex)[:100]))
+        return
+    d2m = ca.MX(d2)
+    if d2m.shape == (1, 1) and d2m.is_symbolic() and not ca.is_equal(d2, ds) and not ca.is_equal(d2, s):
+        c.ok(name2, backend="z3")
+        e3 = ufun("e3", 1, [x, ds])
+        D3 = _partials("e3", 1, [x, ds])
+        nlp.prove_equal("stage:Stage.der:ensures:expression-of-a-derivative-signal", ocp.der(e3), D3[0][0] * ufun("f", 1, [x, u]) + D3[0][1] * d2)
+    else:
+        c.fail(name2, "der(der(s)) is %s instead of a new signal symbol" % str(d2m)[:60])
+    try:
+        ocp.der(d2)
         c.fail("stage:AbstractSignal.der:raises:order-exhausted", "third derivative of an order-2 signal did not raise")
     except Exception as ex:
         c.ok("stage:AbstractSignal.der:raises:order-exhausted", detail=str(ex)[:80], backend="z3")
-    (c.ok if ca.is_equal(ocp._signals[s].der, ds) else lambda n_, **k: c.fail(n_, "second call returned another symbol"))("stage:AbstractSignal.der:ensures:derivative-symbol-created-once", backend="z3")
+    (c.ok if ca.is_equal(ocp.der(s), ds) else lambda n_, **k: c.fail(n_, "second call returned another symbol"))("stage:AbstractSignal.der:ensures:derivative-symbol-created-once", backend="z3")
 
 
 def tasks(tier):
